@@ -5,7 +5,9 @@
   See FcProps/KTieJoin.lean (the same for `join`) and FcProps/KTieGrpPoll.lean for the set-up.
 -/
 import FcGen.KSrcFam3
-import FcProps.KTieJoin
+import FcProps.KTieCore
+import FcProps.KTieStd
+import FcProps.KTiePS
 
 namespace Fc
 open Rs Src
